@@ -1,12 +1,167 @@
-/-! Model for property C11 (core-only: no Mathlib import, so the driver links). -/
+import OnetVerif.Model.Util
+/-! Model for property C11: finished instances and the lifetime of a tree on one server, for one
+tree id.  Anchors: `overlay.go` `TransmitMsg` (137-225: `getAndRefresh`, the `transmitMux` region
+with the done test, instance creation, `treeStorage.Set` after creation), `nodeDone`/`nodeDelete`/
+`cleanTreeStorage` (602-648), `NewTreeNodeInstanceFromService` (local start); `treestorage.go`
+`getAndRefresh`/`Set`/`Remove`/`cancelDeletion` and the removal timer (environment action `expire`).
+
+Steps of an arrival thread: `lookup` = `getAndRefresh` (cancels an armed removal), `found` = the
+`transmitMux` region up to and including the listing of a new instance, `set` = `treeStorage.Set`
+followed by the constructor call and the hand-over (still inside `transmitMux`, so no other thread
+takes a `found` step meanwhile).  Core-only. -/
 namespace C11
 
+inductive Pc where | lookup | found | set | fin deriving DecidableEq, Repr
+
+structure Th where
+  tok : Nat
+  m : Nat
+  pc : Pc
+  deriving DecidableEq, Repr
+
+structure St where
+  present : Bool := false       -- the tree store holds the tree
+  armed : Bool := false         -- a removal is scheduled (`cancellations[id]`)
+  used : Bool := false          -- ghost: some instance has used the tree
+  live : List Nat := []         -- `o.instances` (tokens)
+  settled : List Nat := []      -- ghost: live instances whose creation has completed (`Set` done)
+  doneToks : List Nat := []     -- `o.instancesInfo[tok] = true`
+  constructed : List Nat := []  -- ghost: protocol constructor calls
+  handed : List (Nat × Nat) := []  -- ghost: (token, message) handed to an instance
+  thr : List Th := []
+  deriving Repr
+
+inductive Act where
+  | arrive (tok m : Nat)      -- an envelope for instance `tok` is handed to the dispatcher
+  | thread (i : Nat)
+  | done (tok : Nat)          -- the instance declares itself done (`nodeDone`)
+  | expire                    -- the removal timer fires
+  | localStart (tok : Nat)    -- `CreateProtocol`: list the instance, then `RegisterTree`
+  deriving Repr
+
+def at_ (p : Pc) (t : Th) : Bool := t.pc == p
+
+def stepTh (s : St) (i : Nat) (t : Th) : Option St :=
+  match t.pc with
+  | .lookup =>
+      some { s with armed := false,
+                    thr := s.thr.set i { t with pc := if s.present then .found else .fin } }
+  | .found =>
+      if 0 < s.thr.countP (at_ .set) then none      -- `transmitMux` is held by a creating thread
+      else if t.tok ∈ s.doneToks then
+        -- late message: dropped; the removal cancelled by the lookup is scheduled again
+        some { s with armed := if s.live = [] then true else s.armed,
+                      thr := s.thr.set i { t with pc := .fin } }
+      else if t.tok ∈ s.live then
+        some { s with handed := s.handed ++ [(t.tok, t.m)], thr := s.thr.set i { t with pc := .fin } }
+      else
+        some { s with live := s.live ++ [t.tok], used := true, thr := s.thr.set i { t with pc := .set } }
+  | .set =>
+      some { s with present := true, armed := false,
+                    settled := if t.tok ∈ s.live then s.settled ++ [t.tok] else s.settled,
+                    constructed := s.constructed ++ [t.tok],
+                    handed := if t.m = 0 then s.handed else s.handed ++ [(t.tok, t.m)],
+                    thr := s.thr.set i { t with pc := .fin } }
+  | .fin => none
+
+def step (s : St) : Act → Option St
+  | .arrive tok m => some { s with thr := s.thr ++ [⟨tok, m, .lookup⟩] }
+  | .thread i =>
+      match s.thr[i]? with
+      | some t => stepTh s i t
+      | none => none
+  | .done tok =>
+      if tok ∈ s.settled then
+        let live' := s.live.filter (· != tok)
+        some { s with live := live', settled := s.settled.filter (· != tok),
+                      doneToks := s.doneToks ++ [tok],
+                      armed := if live' = [] then true else s.armed }
+      else none
+  | .expire => if s.armed then some { s with present := false, armed := false } else none
+  | .localStart tok =>
+      if tok ∈ s.live ∨ tok ∈ s.doneToks ∨ tok ∈ s.constructed then none
+      else some { s with live := s.live ++ [tok], used := true,
+                         thr := s.thr ++ [⟨tok, 0, .set⟩] }
+
+def run (s : St) : List Act → St
+  | [] => s
+  | a :: as => match step s a with
+      | some s' => run s' as
+      | none => run s as
+
 namespace Drv
-/-- line-protocol driver state for C11 -/
-abbrev State := Unit
-def init : State := ()
-/-- one line in (tokens after the property prefix), new state and one line out -/
-def step (s : State) (_toks : List String) : State × String := (s, "bad-op")
+
+structure State where
+  s : St := {}
+
+def init : State := {}
+
+def sortNat (l : List Nat) : List Nat := (l.toArray.qsort (· < ·)).toList
+
+def obs (x : St) : String :=
+  let tree := (if x.present then "present" else "absent") ++ (if x.armed then "+armed" else "")
+  s!"tree={tree} live={Util.showNatList (sortNat x.live)} done={Util.showNatList (sortNat x.doneToks)} constructed={Util.showNatList (sortNat x.constructed)} handed={x.handed.length}"
+
+def findThr (x : St) (tok m : Nat) : Option Nat :=
+  (List.range x.thr.length).find? fun i => match x.thr[i]? with
+    | some t => t.tok == tok && t.m == m && t.pc != .fin | none => false
+
+def pcName : Pc → String | .lookup => "lookup" | .found => "found" | .set => "set" | .fin => "fin"
+
+/-- ops: `arrive <tok> <m>` (thread runs to its hook point after the lookup), `thread <tok> <m>`
+(the `transmitMux` region to its end), `done <tok>`, `wait` (longer than the grace period: the
+timer fires if armed), `localstart <tok>`. -/
+def step (st : State) (toks : List String) : State × String :=
+  let x := st.s
+  match toks with
+  | ["arrive", tok, m] =>
+    match tok.toNat?, m.toNat? with
+    | some tok, some m =>
+      match C11.step x (.arrive tok m) with
+      | some x1 =>
+        let i := x1.thr.length - 1
+        let x2 := (C11.step x1 (.thread i)).getD x1
+        ({ s := x2 }, s!"pc={(x2.thr[i]?.map (fun t => pcName t.pc)).getD "?"} {obs x2}")
+      | none => (st, "disabled")
+    | _, _ => (st, "bad-op")
+  | ["thread", tok, m] =>
+    match tok.toNat?, m.toNat? with
+    | some tok, some m =>
+      match findThr x tok m with
+      | some i =>
+        match C11.step x (.thread i) with
+        | some x1 =>
+          -- a creating thread goes on through `Set`, the constructor and the hand-over
+          let x2 := match x1.thr[i]? with
+            | some t => if t.pc = .set then (C11.step x1 (.thread i)).getD x1 else x1
+            | none => x1
+          ({ s := x2 }, s!"pc={(x2.thr[i]?.map (fun t => pcName t.pc)).getD "?"} {obs x2}")
+        | none => (st, "disabled")
+      | none => (st, "disabled")
+    | _, _ => (st, "bad-op")
+  | ["done", tok] =>
+    match tok.toNat? with
+    | some tok =>
+      match C11.step x (.done tok) with
+      | some x1 => ({ s := x1 }, obs x1)
+      | none => (st, "disabled")
+    | none => (st, "bad-op")
+  | ["wait"] =>
+    match C11.step x .expire with
+    | some x1 => ({ s := x1 }, obs x1)
+    | none => (st, obs x)
+  | ["localstart", tok] =>
+    match tok.toNat? with
+    | some tok =>
+      match C11.step x (.localStart tok) with
+      | some x1 =>
+        let i := x1.thr.length - 1
+        let x2 := (C11.step x1 (.thread i)).getD x1
+        ({ s := x2 }, obs x2)
+      | none => (st, "disabled")
+    | none => (st, "bad-op")
+  | _ => (st, "bad-op")
+
 end Drv
 
 end C11
